@@ -101,6 +101,10 @@ pub struct Base {
     pub o_spend_idx: Vec<usize>,
     pub i_sk: Option<orchard::keys::SpendingKey>,
     pub i_spend_idx: Vec<usize>,
+    /// Actions whose spend still needs a signature after IO finalization: the requested spends plus
+    /// the zero-valued wallet spends that accompany change outputs in the restricted Orchard pool.
+    pub o_sign_idx: Vec<usize>,
+    pub i_sign_idx: Vec<usize>,
     /// Anchors and real-spend witnesses of the request (installed by the builder, or ABSENT from
     /// the PCZT when `deferred`).
     pub deferred: bool,
@@ -119,6 +123,8 @@ pub struct Base {
     pub o_memo_ok: Vec<bool>,
     pub i_memo_ok: Vec<bool>,
     pub p2sh: Vec<bool>,
+    /// Requested value balance (inputs - outputs) of the transparent, Sapling, Orchard, Ironwood parts.
+    pub vb: [i64; 4],
     /// Deterministic signature cache: (key debug string, variant) -> signature bytes.
     pub sig_cache: Mutex<BTreeMap<(String, u8), Vec<u8>>>,
     // item counts as present in the PCZT (after padding)
@@ -792,12 +798,14 @@ pub fn build_base(seed: u64, idx: u32) -> Result<Base, String> {
     };
     let fee_rule = zip317::FeeRule::standard();
     let build_rng = ChaCha20Rng::from_seed(bytes32(&mut rng));
+    let sink_used;
     let result: PcztResult<LocalNetwork> = if plan.shape.fmt == Fmt::V6Deferred {
         let fee = populate_deferred(&plan, 1)?.get_fee(&fee_rule).map_err(|e| format!("fee: {e:?}"))?;
         let sink_value = plan
             .total_in
             .checked_sub(fixed_out + fee.into_u64())
             .ok_or_else(|| "inputs too small".to_string())?;
+        sink_used = sink_value;
         populate_deferred(&plan, sink_value)?
             .build_for_pczt(build_rng, &fee_rule)
             .map_err(|e| format!("build_for_pczt(deferred): {e:?}"))?
@@ -807,9 +815,29 @@ pub fn build_base(seed: u64, idx: u32) -> Result<Base, String> {
             .total_in
             .checked_sub(fixed_out + fee.into_u64())
             .ok_or_else(|| "inputs too small".to_string())?;
+        sink_used = sink_value;
         populate_standard(&plan, sink_value)?
             .build_for_pczt(build_rng, &fee_rule)
             .map_err(|e| format!("build_for_pczt: {e:?}"))?
+    };
+    // requested value balance of each pool (inputs - outputs): transparent, sapling, orchard, ironwood
+    let vb: [i64; 4] = {
+        let sink = sink_of(&plan);
+        let outs = |v: &Vec<u64>, s: Sink| -> i64 {
+            let n = v.len();
+            v.iter().enumerate().map(|(i, x)| if s == sink && i + 1 == n { sink_used } else { *x }).sum::<u64>() as i64
+        };
+        let t_out: Vec<u64> = plan.t_outs.iter().map(|(_, v)| *v).collect();
+        let t_in: i64 = plan.t_ins.iter().map(|t| t.coin.value().into_u64() as i64).sum();
+        let s_in: i64 = plan.s_notes.iter().map(|(n, _)| n.value().inner() as i64).sum();
+        let o_in: i64 = plan.o_notes.iter().map(|(n, _)| n.value().inner() as i64).sum();
+        let i_in: i64 = plan.i_notes.iter().map(|(n, _)| n.value().inner() as i64).sum();
+        [
+            t_in - outs(&t_out, Sink::T),
+            s_in - outs(&plan.s_outs, Sink::S),
+            o_in - outs(&plan.o_outs, Sink::O),
+            i_in - outs(&plan.i_outs, Sink::I),
+        ]
     };
     let PcztResult { pczt_parts, sapling_meta, orchard_meta, ironwood_meta } = result;
     let (txid_parts, sighash_parts, t_sighash_parts) = txid_from_parts(&pczt_parts);
@@ -843,6 +871,16 @@ pub fn build_base(seed: u64, idx: u32) -> Result<Base, String> {
             .collect()
     };
     let (o_memo_ok, i_memo_ok) = (memo_ok(false), memo_ok(true));
+    let unsigned = |bundle: &pczt::orchard::Bundle| -> Vec<usize> {
+        bundle.actions().iter().enumerate().filter(|(_, a)| a.spend().spend_auth_sig().is_none()).map(|(i, _)| i).collect()
+    };
+    let (o_sign_idx, i_sign_idx) = (unsigned(pczt.orchard()), unsigned(pczt.ironwood()));
+    for i in &o_spend_idx {
+        assert!(o_sign_idx.contains(i), "requested Orchard spends are unsigned after IO finalization");
+    }
+    for i in &i_spend_idx {
+        assert!(i_sign_idx.contains(i), "requested Ironwood spends are unsigned after IO finalization");
+    }
     Ok(Base {
         idx,
         o_memo_ok,
@@ -851,10 +889,12 @@ pub fn build_base(seed: u64, idx: u32) -> Result<Base, String> {
         t_sks: plan.t_ins.iter().map(|t| t.sks.clone()).collect(),
         s_extsk: (!plan.s_notes.is_empty()).then(|| plan.s_extsk.clone()),
         s_spend_idx,
-        o_sk: (!plan.o_notes.is_empty()).then_some(plan.o_sk),
+        o_sk: (!o_sign_idx.is_empty()).then_some(plan.o_sk),
         o_spend_idx,
-        i_sk: (!plan.i_notes.is_empty()).then_some(plan.i_sk),
+        i_sk: (!i_sign_idx.is_empty()).then_some(plan.i_sk),
         i_spend_idx,
+        o_sign_idx,
+        i_sign_idx,
         deferred,
         s_anchor: plan.s_anchor,
         s_paths: plan.s_notes.iter().map(|(_, p)| p.clone()).collect(),
@@ -866,6 +906,7 @@ pub fn build_base(seed: u64, idx: u32) -> Result<Base, String> {
         i_out_idx,
         memo: plan.memo.clone().into_bytes(),
         p2sh: plan.t_ins.iter().map(|t| t.p2sh).collect(),
+        vb,
         sig_cache: Mutex::new(BTreeMap::new()),
         n_tin: pczt.transparent().inputs().len(),
         n_tout: pczt.transparent().outputs().len(),
